@@ -1,0 +1,140 @@
+//go:build verif
+
+package syntax
+
+import (
+	"fmt"
+	"reflect"
+	"sort"
+	"strings"
+)
+
+// Hooks for the /verif C08 check (reused parsers/printers, interactive glue). Add-only.
+
+// VerifC08ResetParser calls the unexported (*Parser).reset.
+func VerifC08ResetParser(p *Parser) { p.reset() }
+
+// VerifC08ResetPrinter calls the unexported (*Printer).reset.
+func VerifC08ResetPrinter(p *Printer) { p.reset() }
+
+// VerifC08ParserFields renders every field of p canonically: scalars by value, slices as nil or
+// len=N, arrays as array[N], pointers as nil / self.<field> (points into p itself) / set,
+// interfaces as nil or their dynamic type, nested structs field by field. No addresses.
+func VerifC08ParserFields(p *Parser) map[string]string {
+	return verifC08Fields(reflect.ValueOf(p).Elem())
+}
+
+// VerifC08PrinterFields is VerifC08ParserFields for a Printer.
+func VerifC08PrinterFields(p *Printer) map[string]string {
+	return verifC08Fields(reflect.ValueOf(p).Elem())
+}
+
+// VerifC08FieldNames returns the field names of Parser (which=0) or Printer (which=1) in
+// declaration order.
+func VerifC08FieldNames(which int) []string {
+	t := reflect.TypeOf(Parser{})
+	if which == 1 {
+		t = reflect.TypeOf(Printer{})
+	}
+	var out []string
+	for i := 0; i < t.NumField(); i++ {
+		out = append(out, t.Field(i).Name)
+	}
+	return out
+}
+
+func verifC08Fields(s reflect.Value) map[string]string {
+	out := map[string]string{}
+	t := s.Type()
+	for i := 0; i < t.NumField(); i++ {
+		out[t.Field(i).Name] = verifC08Render(s.Field(i), s)
+	}
+	return out
+}
+
+func verifC08Render(v reflect.Value, root reflect.Value) string {
+	switch v.Kind() {
+	case reflect.Bool:
+		return fmt.Sprint(v.Bool())
+	case reflect.Int, reflect.Int8, reflect.Int16, reflect.Int32, reflect.Int64:
+		return fmt.Sprint(v.Int())
+	case reflect.Uint, reflect.Uint8, reflect.Uint16, reflect.Uint32, reflect.Uint64, reflect.Uintptr:
+		return fmt.Sprint(v.Uint())
+	case reflect.String:
+		return fmt.Sprintf("%q", v.String())
+	case reflect.Slice:
+		if v.IsNil() {
+			return "nil"
+		}
+		if v.Type().Elem().Kind() == reflect.Uint8 && v.Len() <= 8 {
+			// short byte slices (stopAt) by content
+			b := make([]byte, v.Len())
+			for i := range b {
+				b[i] = byte(v.Index(i).Uint())
+			}
+			return fmt.Sprintf("len=%d:%x", v.Len(), b)
+		}
+		return fmt.Sprintf("len=%d", v.Len())
+	case reflect.Array:
+		return fmt.Sprintf("array[%d]", v.Len())
+	case reflect.Map:
+		if v.IsNil() {
+			return "nil"
+		}
+		return fmt.Sprintf("len=%d", v.Len())
+	case reflect.Pointer:
+		if v.IsNil() {
+			return "nil"
+		}
+		ptr := v.Pointer()
+		rt := root.Type()
+		for i := 0; i < rt.NumField(); i++ {
+			f := root.Field(i)
+			if f.CanAddr() && f.Addr().Pointer() == ptr && f.Type() == v.Type().Elem() {
+				return "self." + rt.Field(i).Name
+			}
+		}
+		return "set"
+	case reflect.Interface:
+		if v.IsNil() {
+			return "nil"
+		}
+		return "iface:" + v.Elem().Type().String()
+	case reflect.Struct:
+		t := v.Type()
+		var parts []string
+		for i := 0; i < t.NumField(); i++ {
+			parts = append(parts, t.Field(i).Name+"="+verifC08Render(v.Field(i), root))
+		}
+		sort.Strings(parts)
+		return "{" + strings.Join(parts, ",") + "}"
+	case reflect.Func, reflect.Chan:
+		if v.IsNil() {
+			return "nil"
+		}
+		return "set"
+	}
+	return "?" + v.Kind().String()
+}
+
+// VerifC08Probe is what wrappedReader.Read and InteractiveSeq look at, sampled at one instant.
+type VerifC08Probe struct {
+	NL        bool  // p.r == '\n' || p.r == escNewl
+	Line      int64 // p.line
+	OpenNodes int   // p.openNodes
+	LitLen    int   // len(p.litBs)
+	HasErr    bool  // p.err != nil
+	TokNewl   bool  // p.tok == _Newl
+}
+
+// VerifC08ProbeParser samples the parser state without changing it.
+func VerifC08ProbeParser(p *Parser) VerifC08Probe {
+	return VerifC08Probe{
+		NL:        p.r == '\n' || p.r == escNewl,
+		Line:      p.line,
+		OpenNodes: p.openNodes,
+		LitLen:    len(p.litBs),
+		HasErr:    p.err != nil,
+		TokNewl:   p.tok == _Newl,
+	}
+}
